@@ -308,10 +308,17 @@ class LateralImpl:
         tok = torch.arange(1, N * N + 1, dtype=torch.float32).reshape(N, N)
         named = {"tok": tok, "ones": torch.ones(N, N), "diag": 2 * torch.eye(N)}
         shape = (N,) if not hdr.get("shape2") or N % 2 else (N // 2, 2)
+        # initialisers either return a fresh tensor or (as torch.nn.init.* do) fill their argument IN PLACE and
+        # return it: the constructor must mask the result either way
+        if hdr.get("inplace_init"):
+            winit = lambda w: w.copy_(named[hdr["initw"]].reshape(w.shape))      # noqa: E731
+            dinit = lambda d: d.copy_(named[hdr["initd"]].reshape(d.shape))      # noqa: E731
+        else:
+            winit = lambda w: named[hdr["initw"]].clone()                        # noqa: E731
+            dinit = lambda d: named[hdr["initd"]].clone()                        # noqa: E731
         self.conn = LinearLateral(shape, 1.0, synapse=DeltaCurrent.partialconstructor(1.0), bias=True,
                                   delay=float(hdr.get("maxdelay", 8.0)), batch_size=1,
-                                  weight_init=lambda w: named[hdr["initw"]].clone(),
-                                  delay_init=lambda d: named[hdr["initd"]].clone(),
+                                  weight_init=winit, delay_init=dinit,
                                   bias_init=lambda b: torch.arange(1, N + 1, dtype=torch.float32))
         self.conn.updater = self.conn.defaultupdater()
 
@@ -328,6 +335,10 @@ class LateralImpl:
                 c.delay = self._m(op["m"])
             elif a == "set_bias":
                 c.bias = self._m(op["v"])
+            elif a == "iadd_weight":
+                c.weight += float(op["k"])
+            elif a == "iadd_delay":
+                c.delay += float(op["k"])
             elif a in ("upd_weight", "upd_delay"):
                 acc = c.updater.weight if a == "upd_weight" else c.updater.delay
                 acc.pos = self._m(op["p"])
